@@ -349,8 +349,8 @@ impl Check for C11 {
     }
     fn lanes(&self, tier: Tier) -> Vec<(&'static str, usize, usize)> {
         match tier {
-            Tier::Quick => vec![("text", 12_000, 400), ("script", 20_000, 300), ("interp", 12_000, 400), ("psbt", 3_000, 500), ("plan", 8_000, 400), ("compile", 1_500, 300), ("big", 64, 50)],
-            Tier::Thorough => vec![("text", 600_000, 500), ("script", 1_500_000, 400), ("interp", 800_000, 500), ("psbt", 150_000, 600), ("plan", 500_000, 500), ("compile", 60_000, 400), ("big", 2_000, 50)],
+            Tier::Quick => vec![("text", 48_000, 400), ("script", 80_000, 300), ("interp", 48_000, 400), ("psbt", 12_000, 500), ("plan", 32_000, 400), ("compile", 6_000, 300), ("big", 64, 50)],
+            Tier::Thorough => vec![("text", 960_000, 500), ("script", 1_600_000, 400), ("interp", 960_000, 500), ("psbt", 240_000, 600), ("plan", 640_000, 500), ("compile", 120_000, 400), ("big", 2_000, 50)],
         }
     }
     fn replay_raw(&self, kind: &str, data: &[u8]) -> Option<Result<(), Failure>> {
